@@ -9,9 +9,10 @@ from . import artefact, cfggen, compile as vc, hostile, netgen, tflw
 FAMILIES_ALL = ["shared-weights", "stripe-resize", "tiny", "mixed-width", "exact-chain", "exact-dag", "approx-tail", "stripe-stress", "buffer-stress", "lut-stress", "alias-stress", "cpu-mix", "exact-chain-big"]
 
 
-def make_net(family, nseed):
+def make_net(family, nseed, case=None):
     if family == "hostile":
-        return hostile.fam_hostile(nseed)
+        case = case or {}
+        return hostile.fam_hostile(nseed, case.get("hkind"), case.get("hpick"))
     return netgen.make(family, nseed)
 
 
@@ -32,7 +33,7 @@ def gen_cases(tier, seed, tag, n_quick, n_thorough, families=None, weights=None,
 class Compiled:
     def __init__(self, case, keep=False):
         self.case = case
-        self.net = make_net(case["family"], case["nseed"])
+        self.net = make_net(case["family"], case["nseed"], case)
         self.src_bytes = tflw.build(self.net)
         if case.get("model_z"):
             # replay of a recorded witness: the exact bytes that were compiled then (the generators may have changed since)
